@@ -18,11 +18,13 @@ VALUES = {
     "ampersand": ["&", "x &", "a&", "&&", "a && vp_b x"],
     "dup": ["2>&1", "1>&2", ">&2"],
     "list-comment": [";x", "a;vp_b x", "#c", "a #c", "; vp_b x"],
+    # several lines, one of them with an operator
+    "multi-line": ["l1\n>zz", "step 1\ncopy src -> dst", "a\n| vp_b x", "x\n<f"],
 }
 
 
 # the word written before/around the expansion: other tokens of the same command with every tag
-NEIGHBOURS = [("p1", "p1"), ("'s q'", "s q"), ('"d q"', "d q"), ("\\$x", "$x"), ("\\|", "|"), ("''", ""), ("a\\ b", "a b")]
+NEIGHBOURS = [("p1", "p1"), ("'s q'", "s q"), ('"d q"', "d q"), ("\\$x", "$x"), ("\\|", "|"), ("''", ""), ("a\\ b", "a b"), ("mode=fast", "mode=fast")]
 
 
 def _init(cicada):
@@ -30,11 +32,17 @@ def _init(cicada):
     _sb = Sandbox(cicada, "c13")
 
 
-def setup_dir(sb, fname=None):
+def setup_dir(sb, fname=None, as_dir=False):
     sb.clean_work()
     with open(os.path.join(sb.work, "f"), "w") as f:
         f.write("decoy\n")
-    if fname is not None:
+    if fname is not None and as_dir:
+        # the name is that of a directory a wildcard in a directory position matches
+        os.makedirs(os.path.join(sb.work, "d", fname))
+        open(os.path.join(sb.work, "d", fname, "data.txt"), "w").close()
+        os.makedirs(os.path.join(sb.work, fname))
+        open(os.path.join(sb.work, fname, "data.txt"), "w").close()
+    elif fname is not None:
         os.mkdir(os.path.join(sb.work, "d"))
         open(os.path.join(sb.work, "d", fname), "w").close()
 
@@ -57,9 +65,18 @@ def build(case):
         ref = "x`vp_out K`" if quote == "unq" else "`vp_out K`"
     elif deliv == "glob":
         ref = "d/*"
+    elif deliv == "glob-dir":
+        ref = "*/data.txt" if pos in (0, "cmd") else "d/*/data.txt"
     else:
         raise ValueError(deliv)
     w = ('"%s"' % ref) if quote == "dq" else ref
+    # an argument of the form name=<expansion> (it is not a leading assignment: the command word comes first)
+    affix = case.get("affix", "")
+    w = affix + w
+    if pos == "prefix":
+        # the expansion is the value of an assignment word in front of the command
+        company = {None: "", "in-file": " < f", "here-string": " <<< hs", "out-file": " > o.txt"}[case.get("company")]
+        return pre + "W=" + w + " vp_argv p1 p2" + company, extra, ["p1", "p2"]
     if pos == "cmd":
         # the expansion is the command word itself: whatever it yields names a program (that does not exist)
         return pre + w + " p1 p2", extra, None
@@ -69,8 +86,11 @@ def build(case):
     exp = v
     if deliv == "glob":
         exp = "d/" + v if quote == "unq" else "d/*"
+    if deliv == "glob-dir":
+        exp = ref if quote == "dq" else ref.replace("*", v)
     if deliv == "backquote-sub" and quote == "unq":
         exp = "x" + v
+    exp = affix + exp
     expargs = [nb_value, "p2"]
     expargs.insert(pos, exp)
     company = {None: "", "in-file": " < f", "here-string": " <<< hs", "out-file": " > o.txt"}[case.get("company")]
@@ -79,13 +99,13 @@ def build(case):
 
 def run_case(case):
     sb = _sb
-    setup_dir(sb, case["value"] if case["delivery"] == "glob" else None)
+    setup_dir(sb, case["value"] if case["delivery"] in ("glob", "glob-dir") else None, case["delivery"] == "glob-dir")
     sb.reset_log()
     with open(os.path.join(sb.vpdir, "out.K"), "w") as f:
         f.write(case["value"] + "\n")
     line, extra, expargs = build(case)
     before = sb.listing()
-    r = run_cicada(sb, ["-c", line], timeout=15.0, env_extra=extra)
+    r = run_cicada(sb, ["-c", line], timeout=15.0, env_extra=extra, watch=["W"])
     return line, expargs, r, sb.records(), before, sb.listing()
 
 
@@ -111,7 +131,15 @@ def symptom(case, expargs, r, recs, before, after):
         return "program-ran-%d-times" % len(main)
     m = main[0]
     got = m["argv"][1:]
-    if case["quote"] == "dq" or case["delivery"] == "glob":
+    if case["pos"] == "prefix":
+        if got != expargs:
+            return "argument-text-changed" if len(got) == len(expargs) else "argument-count-changed"
+        w = m["env"].get("W")
+        wv = w[0] if w else None
+        want = case["value"] if case["delivery"] not in ("glob", "glob-dir") else None
+        if want is not None and (wv is None or " ".join(wv.split()) != " ".join(want.split())):
+            return "prefixed-variable-not-the-produced-text"
+    elif case["quote"] == "dq" or case["delivery"] in ("glob", "glob-dir"):
         if got != expargs:
             return "argument-text-changed" if len(got) == len(expargs) else "argument-count-changed"
     else:
@@ -150,27 +178,36 @@ def judge(case):
         return ("held", None, res)
     if sym == "TIMEOUT":
         return ("inconclusive", "timeout", res)
-    return ("violated", "C13:%s:%s:value=%s:pos=%s:neighbour=%s%s:%s" % (
-        case["delivery"], case["quote"], case["cls"], "command-word" if case["pos"] == "cmd" else ["first", "middle", "last"][case["pos"]],
+    return ("violated", "C13:%s:%s:value=%s:pos=%s:neighbour=%s%s%s:%s" % (
+        case["delivery"], case["quote"], case["cls"], {"cmd": "command-word", "prefix": "assignment-prefix"}.get(case["pos"]) or ["first", "middle", "last"][case["pos"]],
         NEIGHBOURS[case.get("nb", 0)][0].replace(":", ""),
-        (":with-genuine-" + case["company"]) if case.get("company") else "", sym), res)
+        (":with-genuine-" + case["company"]) if case.get("company") else "", ":as-name=value-argument" if case.get("affix") else "", sym), res)
 
 
 def gen_cases(tier):
     cases = []
     for cls, vals in VALUES.items():
         for v in vals:
-            for deliv in ("var", "var-brace", "assigned-var", "dollar-sub", "backquote-sub", "glob"):
-                if deliv == "glob" and ("/" in v or v in (".", "..")):
+            for deliv in ("var", "var-brace", "assigned-var", "dollar-sub", "backquote-sub", "glob", "glob-dir"):
+                if deliv in ("glob", "glob-dir") and ("/" in v or v in (".", "..")):
                     continue
                 if deliv == "assigned-var" and "'" in v:
+                    continue
+                if "\n" in v and deliv in ("assigned-var", "glob", "glob-dir"):
                     continue
                 for quote in ("unq", "dq"):
                     for pos in (0, 1, 2):
                         for nb in range(len(NEIGHBOURS)):
                             cases.append({"value": v, "cls": cls, "delivery": deliv, "quote": quote, "pos": pos, "nb": nb})
-                    if deliv != "glob" and not (deliv == "backquote-sub" and quote == "unq"):
+                    if deliv not in ("glob", "glob-dir") and not (deliv == "backquote-sub" and quote == "unq"):
                         cases.append({"value": v, "cls": cls, "delivery": deliv, "quote": quote, "pos": "cmd", "nb": 0})
+                    if deliv not in ("glob", "glob-dir", "backquote-sub"):
+                        for pos in (0, 1, 2):
+                            # (unquoted only: a quote that starts in the middle of a word is not what this property is about)
+                            if quote == "unq":
+                                cases.append({"value": v, "cls": cls, "delivery": deliv, "quote": quote, "pos": pos, "nb": 0, "affix": "key="})
+                        for company in (None, "out-file"):
+                            cases.append({"value": v, "cls": cls, "delivery": deliv, "quote": quote, "pos": "prefix", "nb": 0, "company": company})
                     for pos in (0, 1, 2):
                         # the same command also carries a genuine redirection written on the line
                         for company in ("in-file", "here-string", "out-file"):
@@ -191,11 +228,11 @@ def run(tier, seed):
     cicada = common.build_cicada("debug")
     rep = Report("C13", tier, seed)
     rep.rule = ("every value of 6 operator classes (> a>b >>zz | a|b & 'x &' && <f <<< 2>&1 ;x #c ...) x delivery "
-                "{$V exported, ${V}, $V assigned in the line, $(cmd), `cmd`, * match of a file with that name} x "
+                "{$V exported, ${V}, $V assigned in the line, $(cmd), `cmd`, * match of a file with that name, * in a directory position matching a directory with that name} x "
                 "{unquoted, double-quoted} x argument position {first, middle, last} x 7 neighbouring words (plain, quoted, "
                 "backslash-tagged, empty): enumerated completely; every combination again (plain neighbour) with a genuine "
                 "`< f` / `<<< hs` / `> o.txt` written on the same command, which must still be the redirection applied; and "
-                "every value as the command word itself (no file may appear, nothing may run).  "
+                "every value as the command word itself (no file may appear, nothing may run) and as the value of an assignment word in front of the command (the command gets its own arguments, the variable the produced text); a class of multi-line values.  "
                 "Thorough repeats the enumeration with longer random values built from the same operator characters.  "
                 "Non-trivial = always; distinct by case.")
     rep.assumptions = ["unquoted results are compared modulo blank runs"]
@@ -210,7 +247,7 @@ def run(tier, seed):
             if "'" in v or "/" in v or "\0" in v:
                 continue
             cls = "random-mix"
-            cases.append({"value": v, "cls": cls, "delivery": rng.choice(["var", "var-brace", "assigned-var", "dollar-sub", "backquote-sub", "glob"]),
+            cases.append({"value": v, "cls": cls, "delivery": rng.choice(["var", "var-brace", "assigned-var", "dollar-sub", "backquote-sub", "glob", "glob-dir"]),
                           "quote": rng.choice(["unq", "dq"]), "pos": rng.randrange(3), "nb": rng.randrange(len(NEIGHBOURS)),
                           "company": rng.choice([None, None, "in-file", "here-string", "out-file"])})
     results = common.pmap(_work, cases, init=_init, initargs=(cicada,), chunksize=8)
